@@ -423,6 +423,43 @@ def ensemble_layer(ctx: fw.Ctx, header: str) -> None:
                     ctx.fail('a deleted namespace is still served', {'layer': 'nsrev', 'patterns': pats, 'start': sorted(start), 'events': evs},
                              observed=got_ns, sig='deleted-namespace-served')
     ctx.differential('D_nsrev', header, cases_ns, shard=150)
+
+    # ---- observation._update_resources (D_updres)
+    cases_upd: list[fw.Case] = []
+    groups = ['a.dev', 'b.dev', '']
+    gpool = [(g, n, nsd) for g in groups for n in range(3) for nsd in (True,)]
+    gres = {(g, n): references.Resource(group=g, version='v1', plural=f'kind{n}', kind=f'Kind{n}', namespaced=(n % 2 == 0),
+                                         verbs=frozenset({'list', 'watch', 'patch'})) for g, n, _ in gpool}
+    back = {v: k for k, v in gres.items()}
+
+    def c_gres(k: tuple) -> str:
+        return cq.cpair(cq.cstr(k[0]), f'{{| rid := {cq.cZ(k[1])}; rns := {cq.cbool(k[1] % 2 == 0)} |}}')
+    for _ in range(ctx.scale(250, 4000)):
+        before = set(r.sample(sorted(gres), r.randrange(0, 6)))
+        grp = r.choice([None, None, 'a.dev', 'b.dev', ''])
+        source_keys = [k for k in sorted(gres) if (grp is None or k[0] == grp) and r.random() < 0.6]     # what the (re)scan found
+        sels = [references.Selector(k[0] + '/v1' if k[0] else 'v1', f'kind{k[1]}') for k in r.sample(sorted(gres), r.randrange(0, 5))]
+        if r.random() < 0.15:
+            sels.append(references.Selector(references.EVERYTHING))
+        resources = {gres[k] for k in before}
+        source = [gres[k] for k in source_keys]
+        selected = sorted({back[x] for sel in sels for x in sel.select(source)})
+        observation._update_resources(resources, sels, group=grp, source=source)
+        after = sorted(back[x] for x in resources)
+        ctx.count('update_resources', ('full scan' if grp is None else 'group rescan') + (': kinds left' if set(before) - set(after) else '') +
+                  (': kinds joined' if set(after) - set(before) else ''))
+        gterm = cq.copt(cq.cstr(grp) if grp is not None else None)
+        cases_upd.append(fw.Case(
+            f'gres_same (update_resources {gterm} {cq.clist(c_gres(k) for k in sorted(before))} {cq.clist(c_gres(k) for k in selected)}) '
+            f'{cq.clist(c_gres(k) for k in after)}',
+            {'layer': 'updres', 'group': grp, 'before': sorted(before), 'source': source_keys, 'selected': selected, 'after': after},
+            diag=f'update_resources {gterm} {cq.clist(c_gres(k) for k in sorted(before))} {cq.clist(c_gres(k) for k in selected)}'))
+        # monitor: a kind of the rescanned group that the scan no longer shows is not watched any more
+        for k in before:
+            if (grp is None or k[0] == grp) and k not in source_keys and k in after:
+                ctx.fail('a resource kind that disappeared from the cluster scan is still in the insights',
+                         {'layer': 'updres', 'group': grp, 'before': sorted(before), 'source': source_keys}, observed=after, sig='kind-not-removed')
+    ctx.differential('D_updres', header, cases_upd, shard=150)
     ctx.differential('D_glob', header, cases_glob, shard=300)
 
 
